@@ -463,3 +463,36 @@ def fault_sites(prog):
             else:
                 out.append(FaultSite(prog, fi, n, c, fi, n, c, {}))
     return out
+
+
+# ---------------------------------------------------------------------------
+# invocations of the looked-up callable in _dispatch, seen through one level of helper
+# ---------------------------------------------------------------------------
+def _is_lookup(t):
+    return any((a[0] == "item" and q.self_attr(a[1], "funcs")) or
+               (a[0] == "call" and a[1][0] == "global" and a[1][1].endswith("resolve_dotted_attribute")) or
+               (a[0] == "call" and a[1][0] == "attr" and a[1][2] == "resolve_dotted_attribute") for a in prov.alts(t))
+
+
+def callable_invocations(prog):
+    """[(node in _dispatch, call in _dispatch, helper FuncInfo | None, inner call | None)]"""
+    fd = prog.func(SRV, DISP + "._dispatch")
+    g = cfg_of(fd)
+    out = []
+    for n in g.live_nodes():
+        for c in node_calls(n):
+            if isinstance(c.func, ast.Name) and _is_lookup(prov.origin(g, n, c.func)):
+                out.append((n, c, None, None))
+                continue
+            r = prog.resolve_call(fd, c)
+            if isinstance(r, FuncInfo) and r.fq != fd.fq:
+                params = [p for p in r.params if p != "self"]
+                for i, a in enumerate(c.args):
+                    if isinstance(a, ast.Name) and _is_lookup(prov.origin(g, n, a)) and i < len(params):
+                        hp = params[i]
+                        hg = cfg_of(r)
+                        for hn in hg.live_nodes():
+                            for hc in node_calls(hn):
+                                if isinstance(hc.func, ast.Name) and prov.origin(hg, hn, hc.func) == ("param", hp):
+                                    out.append((n, c, r, hc))
+    return out
